@@ -239,6 +239,17 @@ def sib5(ctx, pid):
             ctx.bad(c, f.loc(), "no bit test found in the fold loop")
         else:
             ctx.ok(c, f.loc(), "LSB first over reversed(branch); bit set -> sibling + node, bit clear -> node + sibling")
+    # calc_root starts the fold at keccak(value)
+    cr = ctx.P.func("trie.smt:calc_root")
+    starts = set()
+    for p, st in pq.states(ctx, cr, unroll=1):
+        if p.exit[0] == "return" and not any(ev.k == "loop" for ev in st.events):
+            starts.add(st.ret)
+    wstart = ("call", KECCAK, (("p", cr.params[1]),), ())
+    if starts == {wstart}:
+        ctx.ok("fold-start:calc_root", cr.loc(), "the fold starts at keccak(value)", rule="SIB5")
+    else:
+        ctx.bad("fold-start:calc_root", cr.loc(), "with an empty branch calc_root returns `%s`, expected keccak(value)" % "; ".join(tstr(x)[:50] for x in starts), rule="SIB5")
     # PROV10: set returns the hashes root -> leaf
     f = ctx.P.func(SMT + ".set")
     rets = set()
